@@ -154,8 +154,21 @@ def generate(rng, tier="quick"):
             if rng.random() < 0.5:
                 schema["properties"]["q"] = {"$ref": "#/properties/r"}
         fs[spath] = {"bytes": b64(json.dumps(schema).encode("utf-8")), "fault": None}
+    cwd_base = False
+    if base_uri is None and sstate is None and isinstance(schema, dict) and rng.random() < 0.05:
+        # --base-uri names an EXISTING DIRECTORY of the real file system, without a trailing slash (what $PWD or
+        # Path.as_uri() give): by RFC 3986 - and in the library - relative references then live BESIDE that
+        # directory; a decoy with other definitions lives INSIDE it.  {CWD} is the scratch directory of the run.
+        cwd_base = True
+        base_uri = "file://{CWD}/defs"
+        t1 = rng.choice(["string", "integer", "object"])
+        netdocs = {"file://{CWD}/num.json": {"definitions": {"x": {"type": t1}}},
+                   "file://{CWD}/defs/num.json": {"definitions": {"x": {"type": rng.choice(["null", "array"])}}}}
+        schema = dict(schema)
+        schema["properties"] = dict(schema.get("properties", {}), r={"$ref": "num.json#/definitions/x"})
+        fs[spath] = {"bytes": b64(json.dumps(schema).encode("utf-8")), "fault": None}
     many = None
-    if sstate is None and rng.random() < 0.06:
+    if sstate is None and not cwd_base and rng.random() < 0.06:
         # an instance with MANY errors, at a round count (chunked / buffered output code has its edges there)
         many = rng.choice([10, 16, 32, 50, 64, 100, 100, 128, 200, 256, 500, 512, 1000])
         schema = {"items": {"type": "null"}}
@@ -163,11 +176,16 @@ def generate(rng, tier="quick"):
             schema["$schema"] = W.METASCHEMA_IDS[draft]
         fs[spath] = {"bytes": b64(json.dumps(schema).encode("utf-8")), "fault": None}
     n = rng.choice([0, 1, 2, 2, 3, 3, 4, 5, 6, 9])
+    if cwd_base and n == 0:
+        n = 2
     use_stdin = n == 0
     fault_kinds = [None] * 10 + ["fs_enoent", "fs_enoent", "fs_torn", "fs_torn", "fs_bitflip", "fs_bitflip",
                                  "fs_empty", "fs_bad_utf8", "fs_bom", "fs_trailing_garbage", "fs_trailing_garbage"]
     if rng.random() < 0.1:
         fault_kinds += ["fs_eisdir", "fs_eacces", "fs_eio_on_read"]
+    if cwd_base:
+        fault_kinds = [k for k in fault_kinds if k in (None, "fs_torn", "fs_bitflip", "fs_empty", "fs_bad_utf8", "fs_bom",
+                                                       "fs_trailing_garbage")]
     if rng.random() < 0.3:
         fault_kinds = [None]            # fault-free configuration
     instances = []
@@ -197,7 +215,7 @@ def generate(rng, tier="quick"):
         ent = None
         if data is not None:
             ent = {"bytes": b64(data), "fault": kind}
-            if rng.random() < 0.25:
+            if rng.random() < 0.25 and not cwd_base:
                 ent["short_reads"] = rng.choice([1, 2, 3, 7])
         if use_stdin:
             if ent is None:
@@ -211,7 +229,9 @@ def generate(rng, tier="quick"):
     if not use_stdin and len(instances) >= 2 and rng.random() < 0.12:
         instances.append(rng.choice(instances))          # the same path may be listed twice
     realfs = False
-    if not use_stdin and base_uri is None and rng.random() < 0.08 and \
+    if cwd_base:
+        realfs = True
+    elif not use_stdin and base_uri is None and rng.random() < 0.08 and \
             all(e.get("fault") in (None, "fs_torn", "fs_bitflip", "fs_empty", "fs_bad_utf8", "fs_bom", "fs_trailing_garbage",
                                    "invalid") and not e.get("short_reads") for e in fs.values() if isinstance(e, dict)):
         # the same scenario on a REAL directory (the child chdir()s into a scratch dir holding these files; `open`
@@ -241,7 +261,7 @@ def generate(rng, tier="quick"):
     return {"property": PROPERTY, "fs": fs, "schema_path": spath, "instances": [] if use_stdin else instances,
             "stdin": use_stdin, "output": output, "error_format": error_format, "validator": validator,
             "base_uri": base_uri, "netdocs": netdocs, "draft": draft,
-            "realfs": realfs, "argv_style": rng.choice([0, 0, 1, 2, 3]),
+            "realfs": realfs, "mkdirs": ["defs"] if cwd_base else [], "argv_style": rng.choice([0, 0, 1, 2, 3]),
             "crosscheck": bool(tier == "thorough" and rng.random() < 0.01)}
 
 
@@ -361,14 +381,22 @@ def execute(scn):
     def probe(name, n=1):
         stats[name] = stats.get(name, 0) + n
 
-    router = Router().install(False)
-    router.default = SimTransport(scn.get("netdocs", {}))
-    sim_open, textfile, opened = make_fs(scn, stats)
     tmpdir = None
     if scn.get("realfs"):
         import os
         import tempfile
         tmpdir = tempfile.mkdtemp(prefix="dsim-c19-realfs-")
+        if scn.get("mkdirs"):
+            # {CWD} in the scenario stands for this scratch directory (its random name is scrubbed from every
+            # observation below, so that the run stays a pure function of the scenario)
+            scn = json.loads(json.dumps(scn).replace("{CWD}", tmpdir))
+            for d in scn["mkdirs"]:
+                os.mkdir(os.path.join(tmpdir, d))
+            probe("base_uri_names_real_directory")
+    router = Router().install(False)
+    router.default = SimTransport(scn.get("netdocs", {}))
+    sim_open, textfile, opened = make_fs(scn, stats)
+    if scn.get("realfs"):
         for pth, ent in scn["fs"].items():
             if isinstance(ent, dict) and pth != "<stdin>":
                 with open(os.path.join(tmpdir, pth), "wb") as fh:
@@ -395,6 +423,9 @@ def execute(scn):
     if tmpdir is not None:
         import os
         import shutil
+        stdout, stderr = stdout.replace(tmpdir, "{CWD}"), stderr.replace(tmpdir, "{CWD}")
+        if escaped is not None:
+            escaped = json.loads(json.dumps(escaped).replace(tmpdir, "{CWD}"))
         os.chdir("/")
         shutil.rmtree(tmpdir, ignore_errors=True)
         # on a real directory "was this path opened" is not observable: the per-file oracles below cover it
